@@ -1,4 +1,5 @@
 import Gallia.Proofs.Lemmas.ParseRange
+import Gallia.Proofs.Lemmas.ParseQuote
 /-! C20 helper lemmas: host:port strings and target URIs -/
 namespace Gallia.Parse
 
@@ -207,17 +208,10 @@ structure SchemeOK (s : Str) : Prop where
   head : ∃ c t, s = c :: t ∧ isLowerCh c = true
   chars : ∀ c ∈ s, schemeCh c = true
 
-def paramCh (c : Char) : Bool := isLowerCh c || isUpperCh c || isDigit c || c == '_' || c == '.' || c == '-'
-
+/-- what `from_parts` can write and `qs_flat` gives back unchanged: distinct names (a `dict` has them anyway), no blank value -/
 structure ArgsOK (args : Args) : Prop where
-  keys : ∀ kv ∈ args, ∀ c ∈ kv.1, paramCh c = true
-  vals : ∀ kv ∈ args, (∀ c ∈ kv.2, paramCh c = true) ∧ kv.2 ≠ []
+  vals : ∀ kv ∈ args, kv.2 ≠ []
   nodup : (args.map (·.1)).Nodup
-
-theorem paramCh_excl : ∀ x ∈ ['&', '=', '#', '?'], paramCh x = false := by decide
-
-theorem paramCh_not {c : Char} (h : paramCh c = true) {x : Char} (hx : x ∈ ['&', '=', '#', '?']) : c ≠ x := by
-  intro e; subst e; have := paramCh_excl c hx; simp_all
 
 theorem schemeCh_isSchemeChar {c : Char} (h : schemeCh c = true) : isSchemeChar c = true := by
   simp only [schemeCh, isSchemeChar, isAlphaCh, Bool.or_eq_true] at h ⊢
@@ -246,55 +240,108 @@ theorem lower_scheme {s : Str} (h : SchemeOK s) : lower s = s := by
     simp only [List.map_cons, this a (by simp)]
     rw [ih (fun c hc => this c (by simp [hc]))]
 
-/-- the pieces `k=v` are read back; later duplicates cannot occur because keys are distinct -/
-theorem qsFlat_pieces (args : Args) (h : ArgsOK args) :
-    (args.map fun kv => kv.1 ++ '=' :: kv.2).foldr (fun piece acc =>
+/-! #### the query: `urlencode` then `parse_qs` / `qs_flat` -/
+
+def pieceOf (kv : Str × Str) : Str := quotePlus kv.1 ++ '=' :: quotePlus kv.2
+
+theorem pieceOf_chars (kv : Str × Str) : ∀ c ∈ pieceOf kv, qpChar c = true ∨ c = '=' := by
+  intro c hc
+  simp only [pieceOf, List.mem_append, List.mem_cons] at hc
+  rcases hc with h | h | h
+  · exact Or.inl (quotePlus_chars _ c h)
+  · exact Or.inr h
+  · exact Or.inl (quotePlus_chars _ c h)
+
+theorem not_mem_pieceOf (kv : Str × Str) {x : Char} (hx : x ∈ ['&', '#', '?']) : x ∉ pieceOf kv := by
+  intro hm
+  rcases pieceOf_chars kv x hm with h | h
+  · have : x ∈ ['&', '=', '#', '?', '/', ' ', ':', '[', ']', '@'] := by
+      simp only [List.mem_cons, List.not_mem_nil, or_false] at hx ⊢; grind
+    exact qpChar_not h this rfl
+  · subst h; simp at hx
+
+theorem quotePlus_nil : quotePlus [] = [] := by simp [quotePlus, utf8Str, quotePlusB]
+
+theorem quotePlus_eq_nil {s : Str} : quotePlus s = [] ↔ s = [] := by
+  constructor
+  · intro h; by_cases hs : s = []
+    · exact hs
+    · exact absurd h (quotePlus_ne_nil hs)
+  · intro h; subst h; exact quotePlus_nil
+
+/-- one `k=v` piece read back: dropped when the value is blank, unquoted otherwise -/
+theorem readPiece (kv : Str × Str) :
+    (match splitFirst '=' (pieceOf kv) with
+      | (k, some v) => if v = [] then none else some (unquotePlus k, unquotePlus v)
+      | (_, none) => none) = if kv.2 = [] then none else some kv := by
+  have hk : '=' ∉ quotePlus kv.1 := fun hm => qpChar_not (quotePlus_chars _ _ hm) (by simp) rfl
+  unfold pieceOf
+  rw [splitFirst_stop '=' _ _ hk]
+  simp only [quotePlus_eq_nil, unquotePlus_quotePlus]
+
+theorem qsPairs_pieces (args : Args) :
+    (args.map pieceOf).filterMap (fun piece =>
       match splitFirst '=' piece with
-      | (k, some v) => if v = [] then acc else (k, v) :: acc.filter (·.1 ≠ k)
-      | (_, none) => acc) [] = args := by
+      | (k, some v) => if v = [] then none else some (unquotePlus k, unquotePlus v)
+      | (_, none) => none) = args.filter (fun kv => kv.2 ≠ []) := by
   induction args with
   | nil => rfl
   | cons kv rest ih =>
-    have hrest : ArgsOK rest := ⟨fun x hx => h.keys x (by simp [hx]), fun x hx => h.vals x (by simp [hx]),
-      (List.nodup_cons.mp (by simpa using h.nodup)).2⟩
-    have hk : '=' ∉ kv.1 := fun hm => paramCh_not (h.keys kv (by simp) _ hm) (by simp) rfl
-    have hv : kv.2 ≠ [] := (h.vals kv (by simp)).2
-    have hnot : kv.1 ∉ rest.map (·.1) := (List.nodup_cons.mp (by simpa using h.nodup)).1
-    simp only [List.map_cons, List.foldr_cons, ih hrest, splitFirst_stop '=' kv.1 kv.2 hk, hv, if_false]
+    simp only [List.map_cons, List.filterMap_cons, readPiece kv, List.filter_cons]
+    by_cases hv : kv.2 = []
+    · simp [hv, ih]
+    · simp [hv, ih]
+
+/-- `parse_qsl(urlencode(args))` is `args` without the entries whose value is blank -/
+theorem qsPairs_queryOf (args : Args) : qsPairs (queryOf args) = args.filter (fun kv => kv.2 ≠ []) := by
+  cases hargs : args with
+  | nil => decide
+  | cons kv rest =>
+    rw [← hargs]
+    have hq : queryOf args = joinC '&' (args.map pieceOf) := rfl
+    unfold qsPairs
+    rw [hq, splitOnC_joinC '&' _ (by simp [hargs])]
+    · exact qsPairs_pieces args
+    · intro p hp
+      simp only [List.mem_map] at hp
+      obtain ⟨x, _, rfl⟩ := hp
+      exact not_mem_pieceOf x (by simp)
+
+theorem firstWins_nodup (args : Args) (h : (args.map (·.1)).Nodup) : firstWins args = args := by
+  induction args with
+  | nil => rfl
+  | cons kv rest ih =>
+    have hn : kv.1 ∉ rest.map (·.1) ∧ (rest.map (·.1)).Nodup := by
+      rw [List.map_cons] at h; exact List.nodup_cons.mp h
+    simp only [firstWins]
+    rw [ih hn.2]
     congr 1
     apply List.filter_eq_self.mpr
     intro x hx
     simp only [ne_eq, decide_eq_true_eq]
     intro e
-    exact hnot (by rw [← e]; exact List.mem_map_of_mem hx)
+    exact hn.1 (by rw [← e]; exact List.mem_map_of_mem hx)
+
+/-- `qs_flat` of a written query, for *every* parameter list: blank values are dropped, the first of several values of
+    one name is kept -/
+theorem qsFlat_queryOf_any (args : Args) : qsFlat (queryOf args) = firstWins (args.filter (fun kv => kv.2 ≠ [])) := by
+  unfold qsFlat; rw [qsPairs_queryOf]
 
 theorem qsFlat_queryOf (args : Args) (h : ArgsOK args) : qsFlat (queryOf args) = args := by
-  cases hargs : args with
-  | nil => decide
-  | cons kv rest =>
-    rw [← hargs]
-    unfold qsFlat queryOf
-    rw [splitOnC_joinC '&' _ (by simp [hargs])]
-    · exact qsFlat_pieces args h
-    · intro p hp
-      simp only [List.mem_map] at hp
-      obtain ⟨x, hx, rfl⟩ := hp
-      simp only [List.mem_append, List.mem_cons, not_or]
-      exact ⟨fun hm => paramCh_not (h.keys x hx _ hm) (by simp) rfl, by decide,
-        fun hm => paramCh_not ((h.vals x hx).1 _ hm) (by simp) rfl⟩
+  rw [qsFlat_queryOf_any]
+  have hf : args.filter (fun kv => kv.2 ≠ []) = args :=
+    List.filter_eq_self.mpr (fun kv hkv => by simpa using h.vals kv hkv)
+  rw [hf, firstWins_nodup args h.nodup]
 
-theorem not_mem_queryOf (args : Args) (h : ArgsOK args) : '#' ∉ queryOf args := by
+theorem not_mem_queryOf (args : Args) : '#' ∉ queryOf args := by
   intro hm
-  unfold queryOf at hm
+  have hq : queryOf args = joinC '&' (args.map pieceOf) := rfl
+  rw [hq] at hm
   rcases mem_joinC _ _ _ hm with e | ⟨p, hp, hx⟩
   · exact absurd e (by decide)
   · simp only [List.mem_map] at hp
-    obtain ⟨x, hx', rfl⟩ := hp
-    simp only [List.mem_append, List.mem_cons] at hx
-    rcases hx with hx | hx | hx
-    · exact paramCh_not (h.keys x hx' _ hx) (by simp) rfl
-    · exact absurd hx (by decide)
-    · exact paramCh_not ((h.vals x hx').1 _ hx) (by simp) rfl
+    obtain ⟨x, _, rfl⟩ := hp
+    exact not_mem_pieceOf x (by simp) hx
 
 theorem netloc_no_delim (h : Str) (hok : HostOK h) (p : Option Nat) :
     ∀ x ∈ netlocOf h p, (!isDelim x) = true := by
@@ -374,7 +421,13 @@ theorem splitNetloc_eq (h : Str) (hok : HostOK h) (p : Option Nat) (args : Args)
     rw [takeWhile_all _ _ hnd, dropWhile_all _ _ hnd]
   · rw [takeWhile_stop _ _ '?' _ hnd (by decide), dropWhile_stop _ _ '?' _ hnd (by decide)]
 
-theorem queryPart_qpartOf (args : Args) (h : ArgsOK args) : queryPart (qpartOf args) = queryOf args := by
+theorem pathPart_qpartOf (args : Args) : pathPart (qpartOf args) = [] := by
+  unfold qpartOf pathPart
+  split
+  · rfl
+  · simp [List.takeWhile]
+
+theorem queryPart_qpartOf (args : Args) : queryPart (qpartOf args) = queryOf args := by
   unfold qpartOf
   split
   · rename_i he; subst he; decide
@@ -387,11 +440,107 @@ theorem queryPart_qpartOf (args : Args) (h : ArgsOK args) : queryPart (qpartOf a
     intro x hx
     simp only [decide_eq_true_eq]
     intro e; subst e
-    exact not_mem_queryOf args h hx
+    exact not_mem_queryOf args hx
+
+/-! #### `urlsplit`'s cleaning leaves a written URI alone -/
+
+def visible (c : Char) : Bool := 32 < c.toNat
+
+theorem cleanUrl_visible (s : Str) (h : ∀ c ∈ s, visible c = true) : cleanUrl s = s := by
+  unfold cleanUrl
+  have h1 : s.dropWhile (fun c => decide (c.toNat ≤ 32)) = s := by
+    cases s with
+    | nil => rfl
+    | cons a t =>
+      have := h a (by simp)
+      simp only [visible, decide_eq_true_eq] at this
+      have hn : ¬ a.toNat ≤ 32 := by omega
+      simp [List.dropWhile, hn]
+  rw [h1]
+  apply List.filter_eq_self.mpr
+  intro c hc
+  have hv := h c hc
+  simp only [visible, decide_eq_true_eq] at hv
+  simp only [ne_eq, decide_eq_true_eq]
+  refine ⟨?_, ?_, ?_⟩ <;> (intro e; subst e; simp at hv)
+
+theorem visible_of_range {c : Char} (h : 33 ≤ c.toNat) : visible c = true := by simp [visible]; omega
+
+theorem schemeCh_visible {c : Char} (h : schemeCh c = true) : visible c = true := by
+  simp only [schemeCh, isLowerCh, isDigit, Bool.or_eq_true, Bool.and_eq_true, decide_eq_true_eq, beq_iff_eq] at h
+  rcases h with (((h | h) | h) | h) | h
+  · exact visible_of_range (by omega)
+  · exact visible_of_range (by omega)
+  all_goals (subst h; decide)
+
+theorem hostChar_visible {c : Char} (h : hostChar c = true) : visible c = true := by
+  simp only [hostChar, isLowerCh, isDigit, Bool.or_eq_true, Bool.and_eq_true, decide_eq_true_eq, beq_iff_eq] at h
+  rcases h with (((((h | h) | h) | h) | h) | h) | h
+  · exact visible_of_range (by omega)
+  · exact visible_of_range (by omega)
+  all_goals (subst h; decide)
+
+theorem qpChar_visible {c : Char} (h : qpChar c = true) : visible c = true := by
+  simp only [qpChar, Bool.or_eq_true, Bool.and_eq_true, decide_eq_true_eq, beq_iff_eq] at h
+  exact visible_of_range (by omega)
+
+theorem decStr_visible (p : Nat) : ∀ c ∈ decStr p, visible c = true := by
+  intro c hc
+  have := decStr_isDigit p c hc
+  simp only [isDigit, Bool.and_eq_true, decide_eq_true_eq] at this
+  exact visible_of_range (by omega)
+
+theorem netlocOf_visible (h : Str) (hok : HostOK h) (p : Option Nat) : ∀ c ∈ netlocOf h p, visible c = true := by
+  intro c hc
+  unfold netlocOf at hc
+  simp only [List.mem_append] at hc
+  rcases hc with hc | hc
+  · split at hc
+    · simp only [List.mem_cons, List.mem_append, List.not_mem_nil, or_false] at hc
+      rcases hc with (rfl | hc) | rfl
+      · decide
+      · exact hostChar_visible (hok.chars c hc)
+      · decide
+    · exact hostChar_visible (hok.chars c hc)
+  · cases p with
+    | none => simp at hc
+    | some q =>
+      simp only [List.mem_cons] at hc
+      rcases hc with rfl | hc
+      · decide
+      · exact decStr_visible q c hc
+
+theorem queryOf_visible (args : Args) : ∀ c ∈ queryOf args, visible c = true := by
+  intro c hm
+  have hq : queryOf args = joinC '&' (args.map pieceOf) := rfl
+  rw [hq] at hm
+  rcases mem_joinC _ _ _ hm with e | ⟨p, hp, hx⟩
+  · subst e; decide
+  · simp only [List.mem_map] at hp
+    obtain ⟨x, _, rfl⟩ := hp
+    rcases pieceOf_chars x c hx with h | h
+    · exact qpChar_visible h
+    · subst h; decide
+
+theorem fromParts_visible (sch h : Str) (p : Option Nat) (args : Args) (hs : SchemeOK sch) (hok : HostOK h) :
+    ∀ c ∈ fromParts sch h p args, visible c = true := by
+  intro c hc
+  unfold fromParts at hc
+  simp only [List.mem_append, List.mem_cons, List.not_mem_nil, or_false] at hc
+  rcases hc with ((hc | hc) | hc) | hc
+  · exact schemeCh_visible (hs.chars c hc)
+  · rcases hc with rfl | rfl | rfl <;> decide
+  · exact netlocOf_visible h hok p c hc
+  · split at hc
+    · simp at hc
+    · simp only [List.mem_cons] at hc
+      rcases hc with rfl | hc
+      · decide
+      · exact queryOf_visible args c hc
 
 theorem parseUri_fromParts (sch h : Str) (p : Option Nat) (args : Args) (hs : SchemeOK sch) (hok : HostOK h)
     (hp : portOK p) (ha : ArgsOK args) :
-    parseUri (fromParts sch h p args) = some ⟨sch, some h, some p, args⟩ := by
+    parseUri (fromParts sch h p args) = some ⟨sch, some h, some p, [], args⟩ := by
   have hform : fromParts sch h p args = sch ++ ':' :: ('/' :: '/' :: (netlocOf h p ++ qpartOf args)) := by
     unfold fromParts qpartOf; simp
   have hcolon : ':' ∉ sch := fun hm => schemeCh_ne_colon (hs.chars _ hm) rfl
@@ -401,9 +550,48 @@ theorem parseUri_fromParts (sch h : Str) (p : Option Nat) (args : Args) (hs : Sc
     List.all_eq_true.mpr (fun x hx => schemeCh_isSchemeChar (hs.chars x hx))
   have hhead : sch.head?.any isAlphaCh = true := by simp [hct, isAlphaCh, hlow]
   unfold parseUri
+  rw [cleanUrl_visible _ (fromParts_visible sch h p args hs hok)]
+  simp only
   rw [hform, splitFirst_stop ':' sch _ hcolon]
   simp only [hne, hall, hhead, Bool.not_true, Bool.false_eq_true, or_self, if_false]
   rw [splitNetloc_eq h hok p args]
-  simp only [hostPortOf_netloc h hok p hp, queryPart_qpartOf args ha, qsFlat_queryOf args ha, lower_scheme hs]
+  simp only [hostPortOf_netloc h hok p hp, queryPart_qpartOf args, pathPart_qpartOf args, qsFlat_queryOf args ha, lower_scheme hs]
+
+theorem find_filter_ne (k k2 : Str) (hk : k2 ≠ k) (l : Args) :
+    (l.filter (fun x => x.1 ≠ k2)).find? (fun x => x.1 = k) = l.find? (fun x => x.1 = k) := by
+  induction l with
+  | nil => rfl
+  | cons x xs ih =>
+    by_cases hxk : x.1 = k2
+    · have h1 : (decide (x.1 ≠ k2)) = false := by simp [hxk]
+      have h2 : decide (x.1 = k) = false := by rw [hxk]; simpa using hk
+      rw [List.filter_cons, h1]
+      simp only [Bool.false_eq_true, if_false]
+      rw [List.find?_cons, h2]
+      exact ih
+    · have h1 : (decide (x.1 ≠ k2)) = true := by simp [hxk]
+      rw [List.filter_cons, h1]
+      simp only [if_true]
+      rw [List.find?_cons, List.find?_cons, ih]
+
+theorem cleanUrl_keep (sch rest : Str) (hs : SchemeOK sch) (hr : ∀ c ∈ rest, c ≠ '\t' ∧ c ≠ '\r' ∧ c ≠ '\n') :
+    cleanUrl (sch ++ rest) = sch ++ rest := by
+  obtain ⟨c, t, hct, _⟩ := hs.head
+  have hv : ∀ x ∈ sch, visible x = true := fun x hx => schemeCh_visible (hs.chars x hx)
+  unfold cleanUrl
+  have h1 : (sch ++ rest).dropWhile (fun c => decide (c.toNat ≤ 32)) = sch ++ rest := by
+    have := hv c (by simp [hct])
+    simp only [visible, decide_eq_true_eq] at this
+    have hn : ¬ c.toNat ≤ 32 := by omega
+    simp [hct, List.dropWhile, hn]
+  rw [h1]
+  apply List.filter_eq_self.mpr
+  intro x hx
+  simp only [ne_eq, decide_eq_true_eq]
+  rcases List.mem_append.mp hx with hx | hx
+  · have := hv x hx
+    simp only [visible, decide_eq_true_eq] at this
+    refine ⟨?_, ?_, ?_⟩ <;> (intro e; subst e; simp at this)
+  · exact hr x hx
 
 end Gallia.Parse
